@@ -337,7 +337,11 @@ func (in *c19ReqIn) build() (*http.Request, error) {
 func c19ReqModel(in *c19ReqIn, req *http.Request) (hdr []c19F, trl []c19F) {
 	isConnect := in.Method == "CONNECT"
 	ext := isConnect && in.Proto != "" && in.Proto != "HTTP/1.1"
-	hdr = append(hdr, c19F{Name: ":authority", Value: in.wantHost}, c19F{Name: ":method", Value: in.Method})
+	method := in.Method
+	if method == "" {
+		method = "GET" // net/http: "For client requests, an empty string means GET"
+	}
+	hdr = append(hdr, c19F{Name: ":authority", Value: in.wantHost}, c19F{Name: ":method", Value: method})
 	if !isConnect || ext {
 		hdr = append(hdr, c19F{Name: ":path", Value: req.URL.RequestURI()}, c19F{Name: ":scheme", Value: req.URL.Scheme})
 	}
@@ -672,6 +676,15 @@ func c19RespModel(in *c19RespIn) (hdr []c19F, open map[string]bool, trl []c19F) 
 	}
 	for k, vv := range in.Header {
 		if declared[k] || strings.HasPrefix(k, http.TrailerPrefix) {
+			continue
+		}
+		conn := false
+		for _, n := range c19ConnSpecific {
+			if strings.ToLower(k) == n {
+				conn = true // RFC 9114 §4.2: must not be generated; a handler may set them, the writer has to drop them
+			}
+		}
+		if conn {
 			continue
 		}
 		for _, v := range vv {
